@@ -23,7 +23,8 @@ type world struct {
 	log   []wOp
 	seq   int
 	// feature switches
-	Types []string // instance types to create
+	Types []string  // instance types to create
+	X     *worldExt // request kinds added for the growth of C03 (nil: the original workload, same draws as before)
 }
 
 type wNode struct {
@@ -43,10 +44,11 @@ type wInst struct {
 }
 
 type wRepo struct {
-	root  string
-	nodes []*wNode
-	insts []*wInst
-	nbr   int
+	root     string
+	nodes    []*wNode
+	insts    []*wInst
+	nbr      int
+	ncreated int // instances created so far (index of the next type; deleted ones count)
 }
 
 // wOp is one executed request.
@@ -80,6 +82,9 @@ func (w *world) snapOptions() snap.Options {
 			}
 		}
 	}
+	if w.X != nil {
+		w.extSnapOptions(&o)
+	}
 	return o
 }
 
@@ -101,6 +106,14 @@ func (w *world) do(kind, method, url string, body []byte) (node.Resp, error) {
 	}
 	w.log = append(w.log, op)
 	return r, err
+}
+
+// maxNodes is the cap on the versions of one repo.
+func (w *world) maxNodes() int {
+	if w.X != nil {
+		return w.X.maxNodes()
+	}
+	return 7
 }
 
 func (w *world) pickRepo() *wRepo { return w.repos[w.rng.Intn(len(w.repos))] }
@@ -145,30 +158,23 @@ func (w *world) step() (string, error) {
 	}
 	for tries := 0; tries < 50; tries++ {
 		r := w.pickRepo()
+		if w.X != nil {
+			if kind, handled, err := w.extStep(r); handled {
+				if kind == "" && err == nil {
+					continue
+				}
+				return kind, err
+			}
+		}
 		switch k := w.rng.Intn(20); {
 		case k == 0 && len(w.repos) < 2:
 			return w.newRepo()
-		case (k == 1 || k >= 17) && len(r.insts) < len(w.Types):
-			typ := w.Types[len(r.insts)]
-			name := fmt.Sprintf("%s%d", typ[:2], len(r.insts))
-			cfg := map[string]string{"typename": typ, "dataname": name}
-			if typ == "labelmap" {
-				cfg["BlockSize"] = "32,32,32"
+		case (k == 1 || k >= 17) && r.ncreated < len(w.Types):
+			if w.X != nil && w.X.Synced && !w.extCanCreate(r, w.Types[r.ncreated]) {
+				continue
 			}
-			if w.rng.Intn(2) == 0 {
-				cfg["Tags"] = "type=meshes,owner=a"
-			}
-			b, _ := json.Marshal(cfg)
-			resp, err := w.do("newinstance", "POST", "/api/repo/"+r.root+"/instance", b)
-			if err != nil {
+			if err := w.createNext(r); err != nil {
 				return "", err
-			}
-			if resp.Status == 200 {
-				in := &wInst{name: name, typ: typ, tags: map[string]string{}}
-				if cfg["Tags"] != "" {
-					in.tags["type"], in.tags["owner"] = "meshes", "a"
-				}
-				r.insts = append(r.insts, in)
 			}
 			return "newinstance", nil
 		case k >= 2 && k <= 6: // data write on an open node
@@ -209,7 +215,7 @@ func (w *world) step() (string, error) {
 			return "commit", nil
 		case k == 9 || k == 10: // newversion / branch
 			c := r.committed()
-			if len(c) == 0 || len(r.nodes) >= 7 {
+			if len(c) == 0 || len(r.nodes) >= w.maxNodes() {
 				continue
 			}
 			p := c[w.rng.Intn(len(c))]
@@ -241,7 +247,7 @@ func (w *world) step() (string, error) {
 			return kind, nil
 		case k == 11: // merge
 			c := r.committed()
-			if len(c) < 2 || len(r.nodes) >= 7 {
+			if len(c) < 2 || len(r.nodes) >= w.maxNodes() {
 				continue
 			}
 			a, b := w.rng.Intn(len(c)), w.rng.Intn(len(c))
@@ -334,7 +340,49 @@ func (w *world) step() (string, error) {
 	return "", nil
 }
 
+// createNext creates the next instance of the repo's type list.
+func (w *world) createNext(r *wRepo) error {
+	typ := w.Types[r.ncreated]
+	name := fmt.Sprintf("%s%d", typ[:2], r.ncreated)
+	if typ == "labelsz" {
+		name = fmt.Sprintf("sz%d", r.ncreated)
+	}
+	cfg := map[string]string{"typename": typ, "dataname": name}
+	if typ == "labelmap" {
+		cfg["BlockSize"] = "32,32,32"
+	}
+	if w.rng.Intn(2) == 0 {
+		cfg["Tags"] = "type=meshes,owner=a"
+	}
+	b, _ := json.Marshal(cfg)
+	at := r.root
+	if w.X != nil {
+		at = r.openOrRoot(w) // a locked root refuses new instances
+	}
+	resp, err := w.do("newinstance", "POST", "/api/repo/"+at+"/instance", b)
+	if err != nil {
+		return err
+	}
+	if resp.Status == 200 {
+		in := &wInst{name: name, typ: typ, tags: map[string]string{}}
+		if cfg["Tags"] != "" {
+			in.tags["type"], in.tags["owner"] = "meshes", "a"
+		}
+		r.insts = append(r.insts, in)
+		r.ncreated++
+		if w.X != nil && w.X.Synced {
+			if err := w.extAfterCreate(r, in); err != nil {
+				return err
+			}
+		}
+	}
+	return nil
+}
+
 func (w *world) newRepo() (string, error) {
+	if w.X != nil && w.X.Admin {
+		return w.extNewRepo()
+	}
 	resp, err := w.do("newrepo", "POST", "/api/repos", []byte(fmt.Sprintf(`{"alias":"r%d","description":"d"}`, len(w.repos))))
 	if err != nil {
 		return "", err
@@ -369,6 +417,9 @@ func (w *world) dataWrite(r *wRepo, nd *wNode, in *wInst) (string, error) {
 		_, err := w.do("roipost", "POST", base+"/roi", b)
 		return "roipost", err
 	case "annotation":
+		if w.X != nil && w.X.Synced {
+			return w.extAnnWrite(r, nd, in)
+		}
 		kinds := []string{"PostSyn", "PreSyn", "Note"}
 		var els []map[string]interface{}
 		for i := 0; i < 1+w.rng.Intn(2); i++ {
